@@ -14,13 +14,13 @@ namespace SoyVerif.Lemmas.ParserSafe
 open SoyVerif SoyVerif.Model SoyVerif.Model.Parser SoyVerif.Model.FileParser
 
 section
-variable {AP : Prop} {S : Item → Prop} (hz : S Item.zero)
+variable {AP EL : Prop} {S : Item → Prop} (hz : S Item.zero)
 include hz
 
 /-- `for token.typ == itemComment { token = t.next() }`; `token` is held by the caller -/
 theorem skipComments_safe : ∀ (fuel : Nat) (token : Item) (st : FState) (Q : Item → FState → Prop),
-    S token → Inv S st.p → st.p.peekCount ≤ 1 → top st.p = token → mu st.p + real token + 1 ≤ fuel →
-    (∀ tok st', S tok → Inv S st'.p → st'.p.peekCount ≤ 1 → top st'.p = tok →
+    S token → Inv EL S st.p → st.p.peekCount ≤ 1 → top st.p = token → mu st.p + real token + 1 ≤ fuel →
+    (∀ tok st', S tok → Inv EL S st'.p → st'.p.peekCount ≤ 1 → top st'.p = tok →
       mu st'.p + real tok ≤ mu st.p + real token → Q tok st') →
     FSafe AP S (skipComments fuel token) st Q := by
   intro fuel
@@ -42,8 +42,8 @@ theorem skipComments_safe : ∀ (fuel : Nat) (token : Item) (st : FState) (Q : I
 
 /-- `t.nextNonComment()` -/
 theorem nextNonComment_safe : ∀ (fuel : Nat) (st : FState) (Q : Item → FState → Prop),
-    Inv S st.p → mu st.p + 1 ≤ fuel →
-    (∀ tok st', S tok → Inv S st'.p → st'.p.peekCount ≤ 1 → top st'.p = tok →
+    Inv EL S st.p → mu st.p + 1 ≤ fuel →
+    (∀ tok st', S tok → Inv EL S st'.p → st'.p.peekCount ≤ 1 → top st'.p = tok →
       mu st'.p + real tok ≤ mu st.p → Q tok st') →
     FSafe AP S (nextNonComment fuel) st Q := by
   intro fuel
@@ -66,8 +66,8 @@ theorem nextNonComment_safe : ∀ (fuel : Nat) (st : FState) (Q : Item → FStat
 
 /-- the text-merging loop of textOrTag -/
 theorem collectText_safe : ∀ (fuel : Nat) (text : Bytes) (st : FState) (Q : Bytes × Item → FState → Prop),
-    Inv S st.p → mu st.p + 1 ≤ fuel →
-    (∀ txt nxt st', S nxt → Inv S st'.p → st'.p.peekCount ≤ 1 → top st'.p = nxt →
+    Inv EL S st.p → mu st.p + 1 ≤ fuel →
+    (∀ txt nxt st', S nxt → Inv EL S st'.p → st'.p.peekCount ≤ 1 → top st'.p = nxt →
       mu st'.p + real nxt ≤ mu st.p → Q (txt, nxt) st') →
     FSafe AP S (collectText fuel text) st Q := by
   intro fuel
@@ -91,8 +91,8 @@ theorem collectText_safe : ∀ (fuel : Nat) (text : Bytes) (st : FState) (Q : By
 /-- `parseAttrs(...)` -/
 theorem parseAttrs_safe (allowed : List Bytes) : ∀ (fuel : Nat) (res : List (Bytes × Bytes)) (st : FState)
     (Q : List (Bytes × Bytes) → FState → Prop),
-    Inv S st.p → mu st.p + 1 ≤ fuel →
-    (∀ r st', Inv S st'.p → mu st'.p ≤ mu st.p → Q r st') →
+    Inv EL S st.p → mu st.p + 1 ≤ fuel →
+    (∀ r st', Inv EL S st'.p → mu st'.p ≤ mu st.p → Q r st') →
     FSafe AP S (parseAttrs allowed fuel res) st Q := by
   intro fuel
   induction fuel with
@@ -133,8 +133,8 @@ include hN hwf hlex
 
 /-- the argument loop of a print directive -/
 theorem directiveArgs_safe : ∀ (fuel : Nat) (args : List Expr) (st : FState) (Q : List Expr → FState → Prop),
-    Inv S st.p → mu st.p ≤ N → mu st.p + 1 ≤ fuel →
-    (∀ r st', Inv S st'.p → mu st'.p ≤ mu st.p → Q r st') →
+    Inv EL S st.p → mu st.p ≤ N → mu st.p + 1 ≤ fuel →
+    (∀ r st', Inv EL S st'.p → mu st'.p ≤ mu st.p → Q r st') →
     FSafe AP S (directiveArgs pf ef fuel args) st Q := by
   intro fuel
   induction fuel with
@@ -159,8 +159,8 @@ theorem directiveArgs_safe : ∀ (fuel : Nat) (args : List Expr) (st : FState) (
 
 theorem printLoop_safe (pos : Nat) (expr : Expr) : ∀ (fuel : Nat) (dirs : List Directive) (st : FState)
     (Q : Node → FState → Prop),
-    Inv S st.p → mu st.p ≤ N → mu st.p + 1 ≤ fuel →
-    (∀ r st', childOK r → Inv S st'.p → mu st'.p ≤ mu st.p → Q r st') →
+    Inv EL S st.p → mu st.p ≤ N → mu st.p + 1 ≤ fuel →
+    (∀ r st', childOK r → Inv EL S st'.p → mu st'.p ≤ mu st.p → Q r st') →
     FSafe AP S (printLoop pf ef pos expr fuel dirs) st Q := by
   intro fuel
   induction fuel with
@@ -188,8 +188,8 @@ theorem printLoop_safe (pos : Nat) (expr : Expr) : ∀ (fuel : Nat) (dirs : List
     · exact funexpected_safe hi1 hs1
 
 theorem parsePrint_safe (fuel : Nat) (token : Item) (st : FState) (Q : Node → FState → Prop)
-    (hi : Inv S st.p) (hn : mu st.p ≤ N) (hf : mu st.p + 1 ≤ fuel)
-    (hq : ∀ r st', childOK r → Inv S st'.p → mu st'.p ≤ mu st.p → Q r st') :
+    (hi : Inv EL S st.p) (hn : mu st.p ≤ N) (hf : mu st.p + 1 ≤ fuel)
+    (hq : ∀ r st', childOK r → Inv EL S st'.p → mu st'.p ≤ mu st.p → Q r st') :
     FSafe AP S (parsePrint pf ef fuel token) st Q := by
   unfold parsePrint
   apply FSafe.bind
@@ -201,8 +201,8 @@ theorem parsePrint_safe (fuel : Nat) (token : Item) (st : FState) (Q : Node → 
 
 omit hN hlex in
 theorem aliasLoop_safe : ∀ (fuel : Nat) (name seg : Bytes) (st : FState) (Q : Unit → FState → Prop),
-    Inv S st.p → mu st.p + 1 ≤ fuel →
-    (∀ st', Inv S st'.p → mu st'.p ≤ mu st.p → Q () st') →
+    Inv EL S st.p → mu st.p + 1 ≤ fuel →
+    (∀ st', Inv EL S st'.p → mu st'.p ≤ mu st.p → Q () st') →
     FSafe AP S (aliasLoop fuel name seg) st Q := by
   intro fuel
   induction fuel with
@@ -229,8 +229,8 @@ theorem aliasLoop_safe : ∀ (fuel : Nat) (name seg : Bytes) (st : FState) (Q : 
 
 omit hN hlex in
 theorem parseAlias_safe (fuel : Nat) (st : FState) (Q : Unit → FState → Prop)
-    (hi : Inv S st.p) (hf : mu st.p + 1 ≤ fuel)
-    (hq : ∀ st', Inv S st'.p → mu st'.p ≤ mu st.p → Q () st') :
+    (hi : Inv EL S st.p) (hf : mu st.p + 1 ≤ fuel)
+    (hq : ∀ st', Inv EL S st'.p → mu st'.p ≤ mu st.p → Q () st') :
     FSafe AP S (parseAlias fuel) st Q := by
   unfold parseAlias
   apply FSafe.bind
@@ -243,8 +243,8 @@ theorem parseAlias_safe (fuel : Nat) (st : FState) (Q : Unit → FState → Prop
 omit hN hwf hlex in
 theorem soyDocLoop_safe (pos : Nat) : ∀ (fuel : Nat) (params : List SoyDocParam) (st : FState)
     (Q : Node → FState → Prop),
-    Inv S st.p → mu st.p + 1 ≤ fuel →
-    (∀ r st', childOK r → Inv S st'.p → mu st'.p ≤ mu st.p → Q r st') →
+    Inv EL S st.p → mu st.p + 1 ≤ fuel →
+    (∀ r st', childOK r → Inv EL S st'.p → mu st'.p ≤ mu st.p → Q r st') →
     FSafe AP S (soyDocLoop pos fuel params) st Q := by
   intro fuel
   induction fuel with
@@ -275,7 +275,7 @@ theorem soyDocLoop_safe (pos : Nat) : ∀ (fuel : Nat) (params : List SoyDocPara
 
 omit hN hwf hlex in
 theorem parseAutoescape_safe (attrs : List (Bytes × Bytes)) (st : FState) (Q : Autoescape → FState → Prop)
-    (hi : Inv S st.p) (hq : ∀ r, Q r st) : FSafe AP S (parseAutoescape attrs) st Q := by
+    (hi : Inv EL S st.p) (hq : ∀ r, Q r st) : FSafe AP S (parseAutoescape attrs) st Q := by
   unfold parseAutoescape
   simp only
   split
@@ -292,7 +292,7 @@ theorem parseAutoescape_safe (attrs : List (Bytes × Bytes)) (st : FState) (Q : 
 
 omit hN hwf hlex in
 theorem boolAttr_safe (attrs : List (Bytes × Bytes)) (key : Bytes) (d : Bool) (st : FState)
-    (Q : Bool → FState → Prop) (hi : Inv S st.p) (hq : ∀ r, Q r st) :
+    (Q : Bool → FState → Prop) (hi : Inv EL S st.p) (hq : ∀ r, Q r st) :
     FSafe AP S (boolAttr attrs key d) st Q := by
   unfold boolAttr
   split
@@ -305,8 +305,8 @@ theorem boolAttr_safe (attrs : List (Bytes × Bytes)) (key : Bytes) (d : Bool) (
 
 omit hN hwf hlex in
 theorem namespaceLoop_safe (pos : Nat) : ∀ (fuel : Nat) (name : Bytes) (st : FState) (Q : Node → FState → Prop),
-    Inv S st.p → mu st.p + 2 ≤ fuel →
-    (∀ r st', childOK r → Inv S st'.p → mu st'.p ≤ mu st.p → Q r st') →
+    Inv EL S st.p → mu st.p + 2 ≤ fuel →
+    (∀ r st', childOK r → Inv EL S st'.p → mu st'.p ≤ mu st.p → Q r st') →
     FSafe AP S (namespaceLoop pos fuel name) st Q := by
   intro fuel
   induction fuel with
@@ -342,8 +342,8 @@ theorem namespaceLoop_safe (pos : Nat) : ∀ (fuel : Nat) (name : Bytes) (st : F
 
 omit hN hwf hlex in
 theorem parseNamespace_safe (fuel : Nat) (token : Item) (st : FState) (Q : Node → FState → Prop)
-    (hi : Inv S st.p) (hf : mu st.p + 1 ≤ fuel)
-    (hq : ∀ r st', childOK r → Inv S st'.p → mu st'.p ≤ mu st.p → Q r st') :
+    (hi : Inv EL S st.p) (hf : mu st.p + 1 ≤ fuel)
+    (hq : ∀ r st', childOK r → Inv EL S st'.p → mu st'.p ≤ mu st.p → Q r st') :
     FSafe AP S (parseNamespace fuel token) st Q := by
   unfold parseNamespace
   apply FSafe.bind
@@ -359,8 +359,8 @@ theorem parseNamespace_safe (fuel : Nat) (token : Item) (st : FState) (Q : Node 
     exact hq r st' c a (by omega)
 
 theorem parseHeaderParam_safe (token : Item) (st : FState) (Q : Node → FState → Prop)
-    (hi : Inv S st.p) (hn : mu st.p ≤ N)
-    (hq : ∀ r st', childOK r → Inv S st'.p → mu st'.p ≤ mu st.p → Q r st') :
+    (hi : Inv EL S st.p) (hn : mu st.p ≤ N)
+    (hq : ∀ r st', childOK r → Inv EL S st'.p → mu st'.p ≤ mu st.p → Q r st') :
     FSafe AP S (parseHeaderParam pf ef token) st Q := by
   unfold parseHeaderParam
   simp only
@@ -398,8 +398,8 @@ theorem parseHeaderParam_safe (token : Item) (st : FState) (Q : Node → FState 
 
 omit hN hwf in
 theorem parseCss_safe (token : Item) (st : FState) (Q : Node → FState → Prop)
-    (hi : Inv S st.p)
-    (hq : ∀ r st', childOK r → Inv S st'.p → mu st'.p ≤ mu st.p → Q r st') :
+    (hi : Inv EL S st.p)
+    (hq : ∀ r st', childOK r → Inv EL S st'.p → mu st'.p ≤ mu st.p → Q r st') :
     FSafe AP S (parseCss pf token) st Q := by
   unfold parseCss
   apply FSafe.bind
@@ -417,8 +417,8 @@ theorem parseCss_safe (token : Item) (st : FState) (Q : Node → FState → Prop
 
 omit hN hwf hlex in
 theorem callNameLoop_safe : ∀ (fuel : Nat) (name : Bytes) (st : FState) (Q : Bytes → FState → Prop),
-    Inv S st.p → mu st.p + 1 ≤ fuel →
-    (∀ r st', Inv S st'.p → mu st'.p ≤ mu st.p → Q r st') →
+    Inv EL S st.p → mu st.p + 1 ≤ fuel →
+    (∀ r st', Inv EL S st'.p → mu st'.p ≤ mu st.p → Q r st') →
     FSafe AP S (callNameLoop fuel name) st Q := by
   intro fuel
   induction fuel with
@@ -443,19 +443,21 @@ theorem callNameLoop_safe : ∀ (fuel : Nat) (name : Bytes) (st : FState) (Q : B
 
 omit hN hwf in
 theorem parseCallHead_safe (fuel : Nat) (st : FState) (Q : Bytes × Bool × Option Expr → FState → Prop)
-    (hi : Inv S st.p) (hf : mu st.p + 1 ≤ fuel)
-    (hq : ∀ r st', Inv S st'.p → mu st'.p ≤ mu st.p → Q r st') :
+    (hi : Inv EL S st.p) (hf : mu st.p + 1 ≤ fuel)
+    (hq : ∀ r st', Inv EL S st'.p → mu st'.p ≤ mu st.p → Q r st') :
     FSafe AP S (parseCallHead pf fuel) st Q := by
   unfold parseCallHead
   apply FSafe.bind
   apply fnext_safe hz hi
   intro tok st1 hi1 hs1 hpc1 ht1 hm1 _
   apply FSafe.bind
-  apply FSafe.mono (Q := fun _ st' => Inv S st'.p ∧ mu st'.p ≤ mu st.p)
+  apply FSafe.mono (Q := fun _ st' => Inv EL S st'.p ∧ mu st'.p ≤ mu st.p)
   · split
     · exact FSafe.pure ⟨hi1, by omega⟩
     split
-    · apply FSafe.bind
+    · rename_i hident
+      have hident' : tok.typ = .tIdent := by simpa using hident
+      apply FSafe.bind
       apply fnext_safe hz hi1
       intro tok2 st2 hi2 hs2 hpc2 ht2 hm2 _
       split
@@ -463,7 +465,7 @@ theorem parseCallHead_safe (fuel : Nat) (st : FState) (Q : Bytes × Bool × Opti
         intro r st' a b
         exact ⟨a, by omega⟩
       · apply FSafe.bind
-        apply fbackup2_safe hi2 hs1 (by have := hi.1; omega)
+        apply fbackup2_safe hi2 hs1 (by rw [hident']; decide) (by have := hi.1; omega)
         intro st3 hi3 hm3 _
         exact FSafe.pure ⟨hi3, by rw [ht2] at hm3; omega⟩
     · apply FSafe.bind
@@ -508,7 +510,7 @@ omit hN hz hwf hlex in
     built from well-shaped switch cases are well shaped -/
 theorem pluralCases_safe : ∀ (n : Nat) (cs acc : NodeList) (d : Option Node) (st : FState)
     (Q : NodeList × Option Node → FState → Prop), cs.length = n → casesOK cs → pcasesOK acc →
-    (∀ d0, d = some d0 → listOK d0) → Inv S st.p →
+    (∀ d0, d = some d0 → listOK d0) → Inv EL S st.p →
     (∀ r, pcasesOK r.1 → (∀ d0, r.2 = some d0 → listOK d0) → Q r st) →
     FSafe AP S (pluralCases cs acc d) st Q := by
   intro n
